@@ -65,7 +65,7 @@ def h_dt(defs, main, N, mode, style, twice=False):
     defs_list = [(n, T(d)) for n, d in defs]
     main = T(main)
     full = inline(main, dict(defs_list))
-    vs = sorted(variables(full))
+    vs = sorted(set(variables(full)).union(*[variables(inline(d, dict(defs_list))) for _, d in defs_list]))   # also those of unreferenced sub-specs
 
     def body(env):
         A = env.A
@@ -119,7 +119,7 @@ def h_ct(defs, main, ns, mode, style):
     defs_list = [(n, T(d)) for n, d in defs]
     main = T(main)
     full = inline(main, dict(defs_list))
-    vs = sorted(variables(full))
+    vs = sorted(set(variables(full)).union(*[variables(inline(d, dict(defs_list))) for _, d in defs_list]))   # also those of unreferenced sub-specs
 
     def body(env):
         A = env.A
@@ -209,6 +209,15 @@ def obligations(tier, rng):
                 continue
             for mode in ['offline'] + (['pastified'] if fut else ['online']):
                 out.append(ob('C09', 'dt', 'dt/%s/random%d/p=%s/out=%s' % (mode, k, text(d), text(m)), defs=[['p', d]], main=m, N=6, mode=mode, style='sub'))
+    # the main assertion only RENAMES an earlier sub-specification while a later, unreferenced one exists (and the other way round)
+    for d1, d2 in [(('once_t', X, 0, 1), ('historically', Y)), (('geq', X, C15), ('prev', X)), (('eventually_t', X, 0, 1), ('always_t', Y, 0, 2)), (('since', X, Y), ('not', X))]:
+        for m in (P, Q, ('not', P)):
+            full = inline(m, {'p': d1, 'q': d2})
+            fut = refsem.has_future(full) or refsem.has_future(d1) or refsem.has_future(d2)
+            for mode in ['offline'] + (['pastified'] if fut else ['online']):
+                for style in ('sub', 'multi'):
+                    out.append(ob('C09', 'dt', 'dt/%s/%s/alias/p=%s/q=%s/out=%s' % (mode, style, text(d1), text(d2), text(m)), defs=[['p', d1], ['q', d2]], main=m, N=N,
+                                  mode=mode, style=style))
     # constants as operands and as bounds
     const_cases = [
         ('out = (x) >= (c)', [['c', 'float', '1.5']], 'out = (x) >= (1.5)', ('geq', X, C15)),
@@ -246,6 +255,11 @@ def obligations(tier, rng):
                     continue
                 out.append(ob('C09', 'ct', 'ct/%s/p=%s/out=%s' % (mode, text(d), text(m)), defs=[['p', d]], main=m,
                               ns=[2, 2] if two else [3 if quick else 4], mode=mode, style='sub', max_paths=30000, wall=900))
+    for d1, d2 in [(('once_t', X, 0, 1), ('historically', X)), (('geq', X, C15), ('not', X))]:
+        for m in (P, Q):
+            for mode in ('offline', 'online'):
+                out.append(ob('C09', 'ct', 'ct/%s/alias/p=%s/q=%s/out=%s' % (mode, text(d1), text(d2), text(m)), defs=[['p', d1], ['q', d2]], main=m, ns=[3], mode=mode, style='sub',
+                              max_paths=30000, wall=900))
     seen = set()
     res_ = [o for o in out if not (o['oid'] in seen or seen.add(o['oid']))]
     from .. import core as _core
